@@ -343,16 +343,9 @@ class Aggregator(AbstractAggregator):
         if isinstance(item, int):
             return self.fits[item]
         elif isinstance(item, slice):
-            if item.start is not None:
-                if item.start >= 0:
-                    offset += item.start
-                else:
-                    offset = len(self) + item.start
-            if item.stop is not None:
-                if item.stop >= 0:
-                    limit = len(self) - item.stop - offset
-                else:
-                    limit = len(self) + item.stop
+            start, stop, _ = slice(item.start, item.stop).indices(len(self))
+            offset = self._offset + start
+            limit = max(stop - start, 0)
         return self._new_with(offset=offset, limit=limit)
 
     def _fits_for_query(self, query: str) -> List[m.Fit]:
@@ -375,6 +368,8 @@ class Aggregator(AbstractAggregator):
 
         logger.info(f"{len(fit_ids)} fit(s) found matching query")
         query = self.session.query(m.Fit).filter(m.Fit.id.in_(fit_ids))
+        if self._top_level_only:
+            query = query.filter(~m.Fit.parent.has())
         for order_by in self._order_bys:
             attribute = getattr(m.Fit, order_by.attribute)
 
@@ -382,10 +377,7 @@ class Aggregator(AbstractAggregator):
                 attribute = sa.desc(attribute)
             query = query.order_by(attribute)
 
-        fits = query.offset(self._offset).limit(self._limit).all()
-        if self._top_level_only:
-            return [fit for fit in fits if fit.parent is None]
-        return fits
+        return query.offset(self._offset).limit(self._limit).all()
 
     def add_directory(
         self,
